@@ -505,7 +505,7 @@ def replay(cand):
 
 MANIFEST_ENTRY = {
     "engine": "symx+trig",
-    "technique": "bounded symbolic execution (symx/z3) of coords.sphdist/gcirc/eq2xyz with the angles as solver variables and sin/cos/arcsin/arccos algebraised exactly (vf.trig: unit pairs, addition formulas, defining identities of the inverse functions); cos(result) = v1.v2, range, symmetry, exact zero, +360 invariance, scalar = array decided as nonlinear real arithmetic queries per path; domain side conditions (|u|<=1) are proof obligations; counterexamples rebuilt from the (sin,cos) pairs and replayed against an extended-precision Vincenty formula",
+    "technique": "bounded symbolic execution (symx/z3) of coords.sphdist/gcirc/eq2xyz with the angles as solver variables and sin/cos/arcsin/arccos algebraised exactly (vf.trig: unit pairs, addition formulas, defining identities of the inverse functions); cos(result) = v1.v2, range, symmetry, exact zero, +360 invariance, scalar = array decided as nonlinear real arithmetic queries per path; domain side conditions (|u|<=1) are proof obligations; an IEEE (FloatingPoint, single precision) kernel for the arccos guard of gcirc and conditioning probes (cosine recovered as sqrt(1-sin^2), chord written as 2-2a.b, arccos of a value that can reach +-1) raise candidates at the float level; counterexamples rebuilt from the (sin,cos) pairs and replayed against an extended-precision Vincenty formula",
     "text": "For all point pairs (all longitudes, latitudes in [-90,90]) and input shapes scalar/1/3, on both the chord and the cross-product branch of sphdist and on gcirc, the returned angle lies in [0,180] degrees, its cosine equals the dot product of the unit vectors, it is symmetric, exactly 0 for identical inputs, unchanged under ra+360 and in the requested units; no path raises.",
     "note": "algebraic level only: all accuracy figures (1e-11 / 2e-6 degree) and conditioning near 0/180 degrees are float effects outside a real-arithmetic encoding; N <= 3",
 }
